@@ -18,6 +18,7 @@ import (
 	"time"
 
 	"github.com/6tail/lunar-go/HolidayUtil"
+	"github.com/6tail/lunar-go/SolarUtil"
 	"github.com/6tail/lunar-go/calendar"
 	"pgregory.net/rapid"
 	"verif/internal/dig"
@@ -160,7 +161,10 @@ func run(c call) (out string) {
 		return digestString(dig.Of(l.GetTao(), 1)) + digestString(dig.Of(l.GetFoto(), 1))
 	case "CivilUnits":
 		s := calendar.NewSolar(y, c.B, c.C, c.H, 0, 0)
-		return digestString(dig.Of(s, 0)) + digestString(dig.Of(calendar.NewSolarWeekFromYmd(y, c.B, c.C, c.H%7), 0)) + digestString(dig.Of(calendar.NewSolarMonthFromYm(y, c.B), 0))
+		w := calendar.NewSolarWeekFromYmd(y, c.B, c.C, c.H%7)
+		nx := w.Next(c.H-12, true)
+		return digestString(dig.Of(s, 0)) + digestString(dig.Of(w, 0)) + digestString(dig.Of(calendar.NewSolarMonthFromYm(y, c.B), 0)) +
+			fmt.Sprintf("weeks=%d/%d next=%d-%d-%d", SolarUtil.GetWeeksOfMonth(y, c.B, c.H%7), calendar.NewSolarMonthFromYm(y, c.B).GetWeeks(c.H%7).Len(), nx.GetYear(), nx.GetMonth(), nx.GetDay())
 	case "HolidayViews":
 		yy := 2001 + y%25
 		var ss []string
